@@ -114,6 +114,11 @@ pub fn drive(s: &Stream, cuts: &[usize], min_chunk: u32, out: &mut Vec<Finding>)
                         out.push(fnd("payload-leak", format!("{} decoder: payload piece outside PUBLISH", vname(s.ver)), format!("piece of {} bytes", b.len()), inp()));
                         return;
                     };
+                    if b.is_empty() && !eof {
+                        // a caller that decodes until need-more would never finish (and this loop would grow `sizes` for ever)
+                        out.push(fnd("no-progress", format!("{} decoder: empty payload piece that is not the end", vname(s.ver)), format!("decode handed out an empty, non-final payload piece without consuming input (declared {declared}, got {} so far)", data.len()), inp()));
+                        return;
+                    }
                     data.extend_from_slice(&b);
                     sizes.push(b.len());
                     if data.len() > declared {
